@@ -352,8 +352,7 @@ def swap_toggle(node):
     return None
 
 
-def d5(ctx, prog, cls, entries, acc, count, guard, extra_protected=()):
-    rule = 'C01-D5'
+def d5(ctx, prog, cls, entries, acc, count, guard, extra_protected=(), rule='C01-D5'):
     protected = set(acc) | {count, guard} | set(extra_protected)
     n_eff = 0
     for en in entries:
